@@ -240,7 +240,7 @@ pub enum OfOut {
 
 /// returns the request (with the recorded minima rows), the real result and the rows
 #[cfg(feature = "full")]
-pub fn op_of(frs: &[F], lws: &[f64], pen: [usize; 5]) -> (String, OfOut, Vec<usize>) {
+pub fn op_of(frs: &[F], lws: &[f64], pen: [usize; 5]) -> (String, OfOut, Vec<usize>, String) {
     let p = textwrap::wrap_algorithms::Penalties { nline_penalty: pen[0], overflow_penalty: pen[1], short_last_line_fraction: pen[2], short_last_line_penalty: pen[3], hyphen_penalty: pen[4] };
     textwrap::verif_hooks::minima_log_start();
     let r = quiet(|| textwrap::wrap_algorithms::wrap_optimal_fit(frs, lws, &p).map(|ls| ls.iter().map(|l| l.len()).collect::<Vec<_>>()));
@@ -251,7 +251,9 @@ pub fn op_of(frs: &[F], lws: &[f64], pen: [usize; 5]) -> (String, OfOut, Vec<usi
         Some(Err(_)) => OfOut::Overflow,
         Some(Ok(v)) => OfOut::Ok(v),
     };
-    (format!("of|{}|{}|{}|{}", enc_frags(&frs_tuple(frs)), enc_f64s(lws), enc_nats(&pen), enc_nats(&rows)), out, rows)
+    // the costs of the real run travel too (bit patterns): the model's closure must reproduce them
+    let costs: Vec<f64> = recs.first().map(|r| r.minima.iter().map(|m| m.1).collect()).unwrap_or_default();
+    (format!("of|{}|{}|{}|{}", enc_frags(&frs_tuple(frs)), enc_f64s(lws), enc_nats(&pen), enc_nats(&rows)), out, rows, enc_f64s(&costs))
 }
 
 /// `WrapAlgorithm::wrap` on hand-built words: `alg` = 'f' (first-fit) or 'o' (optimal-fit, `pen`)
